@@ -23,42 +23,86 @@ P = "http://www.w3.org/1999/02/22-rdf-syntax-ns#type"
 
 
 def cap_tables(ctx, clause):
+    """The capped tracker, constructed and driven through its public methods (is_relevant_triple, then annotate_triple) over
+    sequences of triples, for several caps and numbers of target classes; every step is held against the statement of the
+    option: the first `cap` instances of a class are taken, later ones are refused, other predicates are never refused, and
+    with a known number of target classes the pass stops exactly when the last of them is full.  Nothing here depends on how
+    the tracker names or organises its counters."""
+    from ..abseval import Raised, Fork
     p = ctx.p
+    cls = p.find_class("InstanceCapMode")
+    init = cls.find_method("__init__")
+    OTHER = "http://e/p"
+    SEQS = [[("s1", P, "C"), ("s2", P, "C"), ("s3", P, "C"), ("s1", OTHER, "x"), ("s4", P, "D"), ("s5", P, "D"), ("s6", P, "D"), ("s7", P, "C")],
+            [("s1", P, "C"), ("s2", P, "D"), ("s1", P, "D"), ("s3", P, "C"), ("s4", P, "E"), ("s5", P, "D"), ("s6", P, "E"), ("s7", P, "E")]]
     obs, rows = [], 0
-    ev = Evaluator(ctx, watch={"append"})
-    f = p.func(ICM + "_check_class_counts")
-    triple = lambda pred, cls: ({"iri": "s"}, pred, {"iri": cls})
-    for label, pred, counts, want in (("other predicate", "http://e/p", {"C": 3}, True), ("class not seen yet", P, {}, True),
-                                      ("count below the cap", P, {"C": 2}, True), ("count equals the cap", P, {"C": 3}, False),
-                                      ("count above the cap", P, {"C": 4}, False)):
-        outs = ev.outcomes(f, {"a_triple": triple(pred, "C")},
-                           {"self._instantiation_property": P, "self._class_counts": counts, "self._instance_limit": 3})
-        rows += 1
-        ok = len(outs) == 1 and outs[0][:2] == ("return", want)
-        obs.append(Ob(clause, "R-TABLE", "R-TABLE|cap-acceptance|%s" % label, f.loc(), ok,
-                      "cap 3, %s -> %s" % (label, "accepted" if want else "rejected") if ok else "expected %s, code gives %s" % (want, outs)))
-    for name, stop in (("_annotate_class_with_no_stop_condition", False), ("_annotate_class_with_stop_condition", True)):
-        g = p.func(ICM + name)
-        for before, completed_before, n_targets, want_count, want_completed, want_raise in (
-                (None, 0, 2, 1, 0, False), (1, 0, 2, 2, 0, False), (2, 0, 2, 3, 1, False), (2, 1, 2, 3, 2, True)):
-            counts = {} if before is None else {"C": before}
-            insts = {"s": _Rec()}
-            env = {"self._class_counts": counts, "self._instance_limit": 3, "self._instances_dict": insts,
-                   "self._n_classes_completed": completed_before, "self._n_target_classes": n_targets}
-            outs = ev.outcomes(g, {"a_triple": triple(P, "C")}, env)
-            rows += 1
-            fin = ev.finals[0][1]
-            got_count = fin["self._class_counts"].get("C")
-            raised = outs[0][0] == "raise"
-            appended = len([e for o in outs for e in o[2] if e[0] == "append"]) == 1
-            ok = len(outs) == 1 and got_count == want_count and appended
-            if stop:
-                ok = ok and fin["self._n_classes_completed"] == want_completed and raised == want_raise
-            else:
-                ok = ok and not raised
-            obs.append(Ob(clause, "R-TABLE", "R-TABLE|cap-annotate|%s|count=%s,completed=%s" % (name, before, completed_before), g.loc(), ok,
-                          "%s: count %s -> %s, one class appended%s" % (name, before, want_count, (", stop=%s" % want_raise) if stop else "") if ok else
-                          "expected count %s%s; code gives count %s, outcomes %s" % (want_count, " and stop" if want_raise and stop else "", got_count, outs)))
+    for cap in (1, 2, 3):
+        for n_targets in (-1, 1, 2, 3):
+            for si, seq in enumerate(SEQS):
+                ev = Evaluator(ctx, max_depth=10)
+                ev.concrete_classes = {"InstanceCapMode"}
+                ev._yields = []
+                insts = {}
+
+                def is_inst(rec, args, kws):
+                    return (args[0] if args else list(kws.values())[0]) == P
+                is_inst.wants_args = True
+
+                def add_inst(rec, args, kws, insts=insts):
+                    t = args[0] if args else list(kws.values())[0]
+                    insts.setdefault(t[0]["iri"], [])
+                add_inst.wants_args = True
+
+                def yes(rec, args, kws):
+                    return True
+                yes.wants_args = True
+                ann = {"_instantiation_property": P, "_instances_dict": insts, "_instance_tracker": {"is_an_instantiation_prop()": is_inst},
+                       "add_instance_to_instances_dict()": add_inst}
+                kws = {"annotator_ref": ann, "internal_strategy": {"is_relevant_triple()": yes}, "instance_limit": cap, "n_target_classes": n_targets}
+                obj = ev.new(cls, **{k: v for k, v in kws.items() if k in init.params})
+                # reference model of the option
+                counts, full, want, want_insts, stopped = {}, 0, [], {}, False
+                for s_, pr, c in seq:
+                    if pr != P:
+                        want.append("relevant")
+                        continue
+                    if counts.get(c, 0) >= cap:
+                        want.append("refused")
+                        continue
+                    want_insts.setdefault(s_, []).append(c)
+                    counts[c] = counts.get(c, 0) + 1
+                    if n_targets > 0 and counts[c] == cap:
+                        full += 1
+                    if n_targets > 0 and full == n_targets:
+                        want.append("taken, pass stops")
+                        stopped = True
+                        break
+                    want.append("taken")
+                got = []
+                try:
+                    for s_, pr, c in seq:
+                        t = ({"iri": s_}, pr, {"iri": c})
+                        ev._decisions, ev._taken, ev.effects = [], [], []
+                        rel = ev.invoke(obj, "is_relevant_triple", [t], {}, 0)
+                        if rel is not True:
+                            got.append("refused" if rel is False else repr(rel)[:30])
+                            continue
+                        try:
+                            ev.invoke(obj, "annotate_triple", [t], {}, 0)
+                        except Raised as r_:
+                            got.append("taken, pass stops" if r_.exc == "InstancesCapException" else "raises " + r_.exc)
+                            break
+                        got.append("taken" if pr == P else "relevant")
+                except Fork:
+                    raise AnalysisError("the capped tracker consults a value the table does not fix")
+                rows += len(got)
+                got_insts = {k: list(v) for k, v in (obj.fields.get("_instances_dict") or {}).items() if v}
+                ok = got == want and got_insts == want_insts
+                steps = ", ".join("%s %s" % (x[0], "a " + x[2] if x[1] == P else "other-predicate") for x in seq)
+                obs.append(Ob(clause, "R-TABLE", "R-TABLE|cap-sequence|cap=%d,targets=%d,seq=%d" % (cap, n_targets, si), init.loc(), ok,
+                              "cap %d, %s target classes: %s" % (cap, n_targets if n_targets > 0 else "unknown number of", "; ".join(want)) if ok else
+                              "cap %d, %s target classes, triples [%s]: expected [%s] with classes %s, the tracker does [%s] with classes %s" % (
+                                  cap, n_targets if n_targets > 0 else "unknown number of", steps, "; ".join(want), want_insts, "; ".join(got), got_insts)))
     return obs, rows
 
 
